@@ -66,6 +66,7 @@ func main() {
 	repo := flag.String("repo", "/repo", "repository working tree")
 	verif := flag.String("verif", "/verif", "verif directory (evidence, replay, known findings)")
 	useCHA := flag.Bool("cha", false, "use the CHA call graph instead of VTA (thorough cross-check)")
+	dumpFuncs := flag.Bool("dumpfuncs", false, "print the declared module functions (key, signature, declaration order) as JSON (the reference table for renamed helpers) and exit")
 	dumpParams := flag.Bool("dumpparams", false, "print the parameter names of every module function as JSON (the reference table for refName) and exit")
 	noEv := flag.Bool("noevidence", false, "do not write evidence / replay files (used by the mutation self-test)")
 	jsonOut := flag.String("json", "", "write the obligation list to this file")
@@ -117,6 +118,15 @@ func main() {
 	if p != nil {
 		p.useCHA = *useCHA
 	}
+	if *dumpFuncs {
+		if p == nil {
+			fmt.Fprintln(os.Stderr, loadErr)
+			os.Exit(2)
+		}
+		b, _ := json.MarshalIndent(p.declaredFuncs(), "", " ")
+		fmt.Println(string(b))
+		return
+	}
 	if *dumpParams {
 		if p == nil {
 			fmt.Fprintln(os.Stderr, loadErr)
@@ -166,6 +176,9 @@ func runOne(pd *propDef, p *Prog, loadErr error, loadDur time.Duration, tier, ve
 		rep.P = p
 		if len(p.Forwarders) > 0 {
 			rep.Note("loader collapsed %d pure forwarder(s) onto the body they were outlined into: %s", len(p.Forwarders), strings.Join(p.Forwarders, "; "))
+		}
+		if len(p.Renamed) > 0 {
+			rep.Note("loader recognised %d renamed helper(s) by package, receiver and signature: %s", len(p.Renamed), strings.Join(p.Renamed, "; "))
 		}
 		pd.run(rep)
 	}()
